@@ -249,12 +249,91 @@ pub fn eval(ctx: &mut Ctx, op: &str, args: &[Sexp]) -> Option<String> {
             }
             Some(format!("ok {}", ans?))
         }
+        "maxprobe" => {
+            // a type of the opportunistic catalogue: nothing to compare unless the crate declares a maximum for it
+            let want = args.first()?.atom()?;
+            for (name, max, lens) in max_catalogue() {
+                if name.replace(['(', ')'], "_") != want {
+                    continue;
+                }
+                if let Some(m) = max {
+                    if let Some(worst) = lens.iter().max() {
+                        if *worst > m {
+                            ctx.oracle_fail(format!("{}: POSTCARD_MAX_SIZE = {} but a value of the type encodes to {} bytes", name, m, worst));
+                        }
+                    }
+                }
+            }
+            Some("ok".into())
+        }
         "fix" => fix_eval(ctx, args.first()?.atom()?, args.get(1)?.atom()?, args.get(2)?.atom()?),
         _ => None,
     }
 }
 
+// ------------------------------------------------------------------ opportunistic catalogue (C12)
+// core / std types for which the crate has NO MaxSize impl today. If a later version of the crate adds one, it is
+// tested the moment it exists: the inherent method below applies only when `T: MaxSize` holds, otherwise the
+// trait's default answers None (method resolution at a concrete type; no nightly features).
+struct ProbeM<T>(PhantomData<T>);
+trait NoMaxSize {
+    fn declared_max(&self) -> Option<usize> {
+        None
+    }
+}
+impl<T> NoMaxSize for ProbeM<T> {}
+impl<T: MaxSize> ProbeM<T> {
+    fn declared_max(&self) -> Option<usize> {
+        Some(T::POSTCARD_MAX_SIZE)
+    }
+}
+fn enc_lens<T: Serialize>(vals: &[T]) -> Vec<usize> {
+    vals.iter().filter_map(|v| postcard::to_allocvec(v).ok().map(|b| b.len())).collect()
+}
+macro_rules! cat {
+    ($v:ident, $t:ty, [$($x:expr),* $(,)?]) => {
+        $v.push((stringify!($t).replace(' ', ""), ProbeM::<$t>(PhantomData).declared_max(), enc_lens::<$t>(&[$($x),*])));
+    };
+}
+/// (type, its declared maximum if the crate implements MaxSize for it, encoded lengths of extreme values)
+pub fn max_catalogue() -> Vec<(String, Option<usize>, Vec<usize>)> {
+    use core::cmp::Reverse;
+    use core::num::Wrapping;
+    use core::ops::Bound;
+    use core::time::Duration;
+    use std::net::{IpAddr, Ipv4Addr, Ipv6Addr, SocketAddr, SocketAddrV4, SocketAddrV6};
+    let mut v = Vec::new();
+    cat!(v, Duration, [Duration::MAX, Duration::new(u64::MAX, 999_999_999), Duration::new(0, 0), Duration::new(1 << 63, 1 << 28)]);
+    cat!(v, Option<Duration>, [Some(Duration::MAX), None]);
+    cat!(v, Bound<u64>, [Bound::Unbounded, Bound::Included(u64::MAX), Bound::Excluded(u64::MAX)]);
+    cat!(v, Bound<()>, [Bound::Unbounded, Bound::Included(()), Bound::Excluded(())]);
+    cat!(v, Wrapping<u64>, [Wrapping(u64::MAX), Wrapping(0)]);
+    cat!(v, Wrapping<i16>, [Wrapping(i16::MIN), Wrapping(i16::MAX)]);
+    cat!(v, Reverse<u128>, [Reverse(u128::MAX)]);
+    cat!(v, Reverse<(u8, i32)>, [Reverse((255, i32::MIN))]);
+    cat!(v, core::num::Saturating<u32>, [core::num::Saturating(u32::MAX)]);
+    cat!(v, core::cell::Cell<u64>, [core::cell::Cell::new(u64::MAX)]);
+    cat!(v, core::cell::RefCell<i64>, [core::cell::RefCell::new(i64::MIN)]);
+    cat!(v, std::sync::Mutex<u32>, [std::sync::Mutex::new(u32::MAX)]);
+    cat!(v, std::sync::atomic::AtomicU32, [std::sync::atomic::AtomicU32::new(u32::MAX)]);
+    cat!(v, std::sync::atomic::AtomicI64, [std::sync::atomic::AtomicI64::new(i64::MIN)]);
+    cat!(v, std::sync::atomic::AtomicBool, [std::sync::atomic::AtomicBool::new(true)]);
+    cat!(v, Ipv4Addr, [Ipv4Addr::new(255, 255, 255, 255)]);
+    cat!(v, Ipv6Addr, [Ipv6Addr::new(0xffff, 0xffff, 0xffff, 0xffff, 0xffff, 0xffff, 0xffff, 0xffff)]);
+    cat!(v, IpAddr, [IpAddr::V6(Ipv6Addr::new(0xffff, 0xffff, 0xffff, 0xffff, 0xffff, 0xffff, 0xffff, 0xffff)), IpAddr::V4(Ipv4Addr::new(255, 255, 255, 255))]);
+    cat!(v, SocketAddr, [SocketAddr::V6(SocketAddrV6::new(Ipv6Addr::new(0xffff, 0xffff, 0xffff, 0xffff, 0xffff, 0xffff, 0xffff, 0xffff), 65535, 0, 0)), SocketAddr::V4(SocketAddrV4::new(Ipv4Addr::new(255, 255, 255, 255), 65535))]);
+    cat!(v, (u64, u64, u64, u64, u64, u64, u64), [(u64::MAX, u64::MAX, u64::MAX, u64::MAX, u64::MAX, u64::MAX, u64::MAX)]);
+    cat!(v, (u8, u16, u32, u64, u128, i8, i16, i32), [(255, u16::MAX, u32::MAX, u64::MAX, u128::MAX, -128, i16::MIN, i32::MIN)]);
+    cat!(v, (bool, char, f32, f64, u8, u8, u8, u8, u8, u8, u8, u128), [(true, '\u{10FFFF}', 0.0, 0.0, 255, 255, 255, 255, 255, 255, 255, u128::MAX)]);
+    cat!(v, std::time::SystemTime, []);
+    cat!(v, core::num::NonZeroU8, [core::num::NonZeroU8::MAX]);
+    v
+}
+
 pub fn gen_c12(_r: &mut Rng, _thorough: bool, out: &mut Vec<String>) {
+    for (name, _, _) in max_catalogue() {
+        out.push(format!("maxprobe {}", name.replace(['(', ')'], "_")));
+    }
     let mut seen = std::collections::HashSet::new();
     for e in all_entries() {
         if seen.insert(e.mty.clone()) {
